@@ -52,6 +52,26 @@ def run(ck, prog, ctx):
                 if not any(a[0] == "field" and a[2] == "distance_matrix" for a in recv):
                     continue
                 sel = [s for s in classify_selection(cb, pv) if s["kind"]]
+                if not sel and t.callee.method in ("min_by", "max_by"):
+                    # comparator closure: |a, b| a.1.total_cmp(b.1) / partial_cmp(..)
+                    cmpc = [c for _, c in cb.calls() if c.callee.method in ("total_cmp", "partial_cmp", "cmp") and len(c.args) == 2]
+                    if len(cmpc) == 1:
+                        pa = params_of(pv.of_operand(cb, cmpc[0].args[0]), cb.id)
+                        pb = params_of(pv.of_operand(cb, cmpc[0].args[1]), cb.id)
+                        comps = set()
+                        for o in cmpc[0].args:
+                            for a in pv.of_operand(cb, o):
+                                if a[0] == "param":
+                                    comps.add(tuple(e[1] for e in a[3] if e[0] == "f")[:1])
+                        natural = pa == {2} and pb == {3}
+                        rev = pa == {3} and pb == {2}
+                        if natural or rev:
+                            found = True
+                            n += 1
+                            is_min = (t.callee.method == "min_by") == natural
+                            ck.ob("SELECT", "closest/reduce", is_min, "the merge step picks the pair with the %s distance (%s with %s(%s))" % ("smallest" if is_min else "LARGEST", t.callee.method, cmpc[0].callee.method, "a, b" if natural else "b, a"), where=cb.where(cmpc[0].line))
+                            ck.ob("SELECT", "closest/component", comps == {("1",)}, "the comparison is made on %s" % ("the distance component (.1) of the matrix entries" if comps == {("1",)} else "components %s, not the distance (.1)" % sorted(comps)), where=cb.where())
+                            continue
                 if not sel:
                     ck.undecided("SELECT", "closest/reduce", "selection closure of the merge step not recognised", where=host.where(t.line))
                     continue
@@ -76,6 +96,21 @@ def run(ck, prog, ctx):
                     found = True
                     n += 1
                     ck.ob("SELECT", "closest/reduce", t.callee.method.startswith("min"), "the merge step reduces with Iterator::%s" % t.callee.method, where=host.where(t.line))
+                    # f32 is not Ord: a key function has to map the distance to something ordered.  Its bit pattern is NOT ordered like
+                    # the number (negative values sort after all non-negative ones, and in reverse among themselves).
+                    if t.callee.method.endswith("_by_key") and len(t.args) > 1:
+                        kb = prog.bodies.get(pv.closure_of_operand(host, t.args[1]))
+                        if kb is None:
+                            ck.undecided("SELECT", "closest/key", "key function of the merge step is not a closure", where=host.where(t.line))
+                        else:
+                            kcalls = {c.callee.method for _, c in kb.calls()}
+                            casts = [st for _, st in kb.stmts() if st.k == "assign" and st.rv["k"] == "cast" and "FloatToInt" in st.rv.get("kind", "")]
+                            if "to_bits" in kcalls or "to_ne_bytes" in kcalls or "to_be_bytes" in kcalls or "to_le_bytes" in kcalls:
+                                ck.ob("SELECT", "closest/key", False, "the merge step orders the distances by their BIT PATTERN (to_bits): for negative distances (e.g. 1 - similarity with a similarity above 1) that is not the numeric order, the closest pair is not selected", where=kb.where())
+                            elif casts:
+                                ck.ob("SELECT", "closest/key", False, "the merge step orders the distances after casting them to an integer: distances that differ by less than 1 are ties", where=kb.where())
+                            else:
+                                ck.undecided("SELECT", "closest/key", "key function of the merge step not recognised (calls %s)" % sorted(kcalls), where=kb.where())
     if not found:
         ck.undecided("SELECT", "closest/reduce", "no reduction over the distance matrix recognised")
     # ---- update functions
@@ -114,7 +149,7 @@ def run(ck, prog, ctx):
                 others = [a for a in at if a[0] == "op" and a[1] in ("Sub", "Mul", "Div")]
                 ok = ps == {1, 2} and adds and not others
                 ck.ob("SELECT", "average/update", bool(ok), "the mean's numerator is %s" % ("the sum of both arguments" if ok else "not a plain sum of both arguments (params %s)" % sorted(ps)), where=fb.where(d["line"]))
-    ck.floor("SELECT", "selection sites", n, 4)
+    ck.floor("SELECT", "selection sites", n, 3)
 
     # ---- size bookkeeping: the size of a merge is size(first node) + size(second node)
     ck.rule("ROLE", "index roles in the cluster-size bookkeeping (DESIGN 3.4)")
